@@ -35,12 +35,15 @@ const assetsJSON = `{
     {"uuid": "f0000001-0000-4000-8000-000000000003", "key": "dob", "name": "DOB", "type": "datetime"},
     {"uuid": "f0000001-0000-4000-8000-000000000004", "key": "joined", "name": "Joined", "type": "datetime"},
     {"uuid": "f0000001-0000-4000-8000-000000000005", "key": "gender", "name": "Gender", "type": "text"},
-    {"uuid": "f0000001-0000-4000-8000-000000000006", "key": "nick", "name": "Nick", "type": "text"}
+    {"uuid": "f0000001-0000-4000-8000-000000000006", "key": "nick", "name": "Nick", "type": "text"},
+    {"uuid": "f0000001-0000-4000-8000-000000000007", "key": "id", "name": "National ID", "type": "number"},
+    {"uuid": "f0000001-0000-4000-8000-000000000008", "key": "status", "name": "Status Since", "type": "datetime"}
   ],
   "groups": [], "flows": [], "channels": [], "labels": []
 }`
 
-var fieldTypes = map[string]string{"age": "number", "score": "number", "dob": "date", "joined": "date", "gender": "text", "nick": "text"}
+// "id" and "status" are fields keyed like built-in attributes of another type: written with the fields. prefix they are the fields
+var fieldTypes = map[string]string{"age": "number", "score": "number", "dob": "date", "joined": "date", "gender": "text", "nick": "text", "id": "number", "status": "date"}
 
 var sessionAssets flows.SessionAssets
 
@@ -560,12 +563,12 @@ func drawCase(t *rapid.T) Case {
 	}
 	c.URNs = uniq(c.URNs)
 	numVals := []string{"0", "1", "18", "18.5", "-3", "100", "18.50", "17.999999999"}
-	for _, k := range []string{"age", "score"} {
+	for _, k := range []string{"age", "score", "id"} {
 		if rapid.Bool().Draw(t, "has"+k) {
 			c.Numbers[k] = rapid.SampledFrom(numVals).Draw(t, k)
 		}
 	}
-	for _, k := range []string{"dob", "joined"} {
+	for _, k := range []string{"dob", "joined", "status"} {
 		if rapid.Bool().Draw(t, "has"+k) {
 			c.Dates[k] = drawInstantNear(t, loc, y, m, d).In(zoneOf()).Format(time.RFC3339Nano)
 		}
@@ -608,7 +611,7 @@ func drawCase(t *rapid.T) Case {
 		case k == 2: // name contains
 			return Leaf{Prop: "name", Kind: "text", Op: "~", Value: rapid.SampledFrom([]string{"bo", "bob", "smi", "mül", "mcg", "bobby mc"}).Draw(t, "cval")}
 		case k <= 4: // numbers
-			prop := rapid.SampledFrom([]string{"age", "fields.score", "score", "tickets", "AGE"}).Draw(t, "nprop")
+			prop := rapid.SampledFrom([]string{"age", "fields.score", "score", "tickets", "AGE", "fields.id"}).Draw(t, "nprop")
 			op := rapid.SampledFrom([]string{"=", "!=", "<", ">", "<=", ">="}).Draw(t, "op")
 			val := rapid.SampledFrom(append([]string{""}, numVals...)).Draw(t, "nval")
 			if strings.EqualFold(prop, "tickets") && val == "" {
@@ -627,7 +630,7 @@ func drawCase(t *rapid.T) Case {
 			}
 			return Leaf{Prop: prop, Kind: "urn", Op: op, Value: val}
 		default: // dates
-			prop := rapid.SampledFrom([]string{"created_on", "last_seen_on", "dob", "fields.joined", "joined"}).Draw(t, "dprop")
+			prop := rapid.SampledFrom([]string{"created_on", "last_seen_on", "dob", "fields.joined", "joined", "fields.status"}).Draw(t, "dprop")
 			op := rapid.SampledFrom([]string{"=", "!=", "<", ">", "<=", ">="}).Draw(t, "op")
 			switch rapid.IntRange(0, 5).Draw(t, "dv") {
 			case 0:
